@@ -3,6 +3,7 @@ package main
 // Extractors added for engine E4 (nsqlookupd).
 //
 //	stmts_opt: as stmts; [] when the function does not exist
+//	calls_opt: as calls; [] when the function does not exist
 //	routes3 {"name","dir","func"} → def <name> : List (String × String × String)
 //	        (method, path, handler) for router.Handle / router.HandlerFunc / router.Handler
 //	        calls with literal method and path; handler = the function wrapped by
@@ -18,6 +19,7 @@ import (
 func init() {
 	register("routes3", kindRoutes3)
 	register("stmts_opt", kindStmtsOpt)
+	register("calls_opt", kindCallsOpt)
 	register("loopexits", kindLoopExits)
 }
 
@@ -122,6 +124,17 @@ func kindStmtsOpt(c *Ctx, it Item) (string, error) {
 		return "", err
 	}
 	return kindStmts(c, it)
+}
+
+// calls_opt: like `calls`, but a function that does not exist yields the empty list.
+func kindCallsOpt(c *Ctx, it Item) (string, error) {
+	if _, _, err := c.FindFunc(it.Str("dir"), it.Str("func")); err != nil {
+		if strings.Contains(err.Error(), "not found") {
+			return fmt.Sprintf("def %s : List String := []\n", it.Str("name")), nil
+		}
+		return "", err
+	}
+	return kindCalls(c, it)
 }
 
 func kindRoutes3(c *Ctx, it Item) (string, error) {
